@@ -140,3 +140,93 @@ MANIFEST_TEXT_EXTRA['C16'] = {'design_ref': 'DESIGN.md 4 C16',
          'definitions on every well-formed string and never hit an index panic there; the three check_*_for_latin1_and_bidi functions answer exactly as the '
          'two separate checks (restart offset is a scalar boundary preceded only by Latin1). Models tied to the code by the differential run (every scalar / '
          'code unit, boundaries planted at every position/length over three fillers, systematic malformed UTF-8, seeded random text).'}
+
+PROPS_EXTRA['C11'] = {'assumptions': ['bytes and scalar values are Nat; a `&str` / `String` is the list of its scalar values (`strScalars` of its bytes); `Cow::Borrowed` is a flag - '
+                 'pointer identity of a borrow is observed by the harness only (ptr/len equal to the argument slice after the BOM)',
+                 'the validators are the simple recursive definitions Model.asciiValidUpTo / Model.iso2022JpAsciiValidUpTo / Spec.validUpTo; that the real '
+                 'validators compute exactly these is property C14',
+                 'the capacity arithmetic of the one-shot functions (checked_add, checked_next_power_of_two, checked_min over max_utf8_buffer_length*) is not '
+                 'executed by the model (the worst-case formulas have no Lean model yet: C07); its only influence on the result - where the decoder stops '
+                 'with OutputFull - is the free stop-budget parameter and every theorem is quantified over it; the `.unwrap()` overflow panics (lengths near '
+                 'usize::MAX/3) are outside the model',
+                 'the loops of decode_without_bom_handling are modelled with fuel; the equality theorems are stated for every fuel and every stop policy for '
+                 'which the model returns (partial correctness); that it returns is proved for the never-stop policy the driver runs '
+                 '(decode_without_bom_handling_terminates, fuel 10*len+16) and PENDING for the other policies (see partial)',
+                 '`self == UTF_8` etc. (address comparison of &\'static Encoding) is modelled as a test on the variant; variant_identifies re-checks on the '
+                 'regenerated Gen.encodings that each such variant belongs to exactly the encoding of that name and that is_potentially_borrowable agrees '
+                 'with the index list extracted from lib.rs'],
+ 'correspondences': ['oneshot: Encoding::decode / decode_with_bom_removal / decode_without_bom_handling / '
+                     'decode_without_bom_handling_and_without_replacement impl (UTF-8 bytes of the result | None, encoding used, had_errors, Cow::Borrowed?) = '
+                     'Model.OneShot.decode / decodeWithBomRemoval / decodeWithoutBomHandling / decodeWithoutBomHandlingAndWithoutReplacement on every '
+                     'generated (encoding, input)'],
+ 'generated': ['Gen.Encodings (the 40 Encoding initialisers, utf8Idx, notPotentiallyBorrowable: re-checked by variant_identifies)',
+               'Gen.SingleByte and the multi-byte tables (through famOfVariant)'],
+ 'harness_cfgs': ['default'],
+ 'partial': ['Encoding::encode: ORACLE ONLY (no Lean encoder model yet): bytes, encoding used (= output_encoding()), had_unmappables equal to the streaming '
+             'Encoder (one call and 7-byte chunks), Cow::Borrowed iff documented (output encoding UTF-8: always; ISO-2022-JP: ASCII without 0E/0F/1B; other: '
+             'ASCII-only) with ptr/len aliasing check, no panic',
+             'oneshot_no_unreachable at full strength (the unreachable!() on OutputFull of the without-replacement form is never reached for the capacity '
+             'the code computes) needs C07; proved: no_unreachable_partial (policy "never stop") and without_replacement_none_iff for every stop policy '
+             'under which the function returns; on the implementation a panic on any generated input is an oracle failure',
+             'termination of the grow loop / replacement loop of decode_without_bom_handling (the fuel of the model) is proved only for the never-stop '
+             'policy (decode_without_bom_handling_terminates / decode_terminates / decode_with_bom_removal_terminates via rank_le for all 13 families and '
+             'replLoop_terminates; this is the policy and the fuel the driver uses, so `diverges` cannot be printed); for policies with OutputFull rounds it '
+             'needs the capacities (C07) in the model plus C08 outputFull_progress - PENDING',
+             'equality with the *sniffing / BOM-removing streaming Decoder* (life cycle of C10): decode_eq_sniff / decode_with_bom_removal_eq reduce the '
+             'one-shot BOM handling to the streaming decoder WITHOUT BOM handling of the encoding used on the input after the BOM; sniff_single_call / '
+             'remove_*_single_call prove that the life-cycle model Decoder.rawCall fed the whole input in ONE last call hands exactly that decoder and that '
+             'slice on; other chunkings of the sniffing decoder are C10 (not proved yet) and are compared by the harness oracle (one call and 7-byte '
+             'chunks) on every generated input',
+             'pointer aliasing of a borrow is observed (harness), not proved'],
+ 'rule': 'for each of the 40 encodings: lengths {0,1,2,3,4,7,15,16,17,31,32,33,63,64,65,127,128,129,1000,4096} (thorough: 0..130, 191..193, 255..257, 511..513, '
+         '1000, 1023..1025, 2047..2049, 3000, 4095, 4096) x the all-ASCII buffer and, for every residue p = 0..63, the first non-ASCII / invalid / escape unit '
+         'at the lowest and the highest position congruent p mod 64 (thorough: also a middle one) x 16 offender kinds (0x80, 0xFF, ESC, SO, SI, a native '
+         'non-ASCII character of the encoding, its truncated lead, valid 2/3/4-byte UTF-8, surrogate ED A0 80, F4 90 80 80, truncated F0 9F 98, an '
+         'ISO-2022-JP escape round trip, overlong C0 80, lone continuation; 2 (thorough 4) kinds per position, rotating with position and length so that '
+         'every kind meets every residue) x 3 tails (ASCII, offender repeated to the end, random malformed; one per input, rotating; thorough: all three '
+         'for lengths up to 33); every 5th (thorough 3rd) input also with one of 8 BOM-like prefixes (EF BB BF, FE FF, FF FE, EF BB, EF, FE, FF, EF BB '
+         'BE); the 8 prefixes alone and followed by 6 short tails; 220 (thorough 3000) dec.rs gen_stream inputs (encoder-produced mostly-valid text with '
+         'edits, alphabet strings, random bytes; some with an ASCII head). Every input goes through all four decode functions at a rotating start alignment '
+         'in an exact-size allocation with the oracles: text/had_errors/encoding-used = streaming decoder (sniff / remove / off) fed in one call and in '
+         '7-byte chunks, None iff streaming Malformed, Borrowed iff documented + ptr/len = argument slice after the BOM, valid UTF-8, no panic. Operation '
+         'lines for the model: quick - all four functions for inputs up to 130 bytes, one function of every 12th longer input; thorough - one function '
+         '(rotating) of every 2nd input up to 130 bytes and of every 24th longer input (the oracles always run on every input and all four functions). encode: the same '
+         'length/position scheme (thorough: lengths 0..66, 127..129, 255..257, 1000, 1024, 4095, 4096) with 14 offender characters (2, thorough 4 per '
+         'position) over all 40 encodings, oracle only. distinct = distinct operation lines; non-trivial = input '
+         'not empty',
+ 'thm_modules': ['EncodingRs.Thm.C11'],
+ 'trivial_re': '^oneshot \\S+ \\S+ \\. => ',
+ 'trusted': ['relational call model (Model.call with a stop budget) and the per-byte transition functions of the 13 variant decoders, tied by the dec '
+             'correspondence run (C02/C06); here additionally tied end-to-end by the oneshot correspondence',
+             'Spec/Utf8.lean (Unicode Table 3-7) as the definition of valid UTF-8 / of the chars of a &str',
+             'String::with_capacity / reserve / Vec::extend_from_slice / from_utf8_unchecked of alloc/core behave as documented',
+             'the streaming API of the crate itself is the harness oracle for text / flags (its own correctness is C01/C02/C09/C10)']}
+
+MANIFEST_TEXT_EXTRA['C11'] = {'design_ref': 'DESIGN.md 4 C11',
+ 'note': 'Trusted: Lean kernel; translator (Encoding initialisers, tables); hand models of the variant decoders + relational call model (correspondence '
+         'run); Spec/Utf8.lean; validators assumed exact (C14). Not proved: Encoding::encode (oracle only, no encoder model yet), the unreachable!() arm at '
+         'the computed capacity (needs C07; proved for the never-stop policy), termination of the model loops (fuel), pointer aliasing (observed), the tie '
+         'to the BOM-sniffing streaming life cycle (C10; oracle).',
+ 'technique': 'Lean 4 proof (refinement of the one-shot control flow to the chunk-free reference semantics, induction over loop rounds / the UTF-8 scan) + '
+              'differential correspondence model/impl + streaming-API oracles with aliasing check',
+ 'text': 'Theorems over a model of the four one-shot decode functions written as the Rust is (for_bom / starts_with prefix tests, '
+         'is_potentially_borrowable, choice of validator, early Cow::Borrowed, copy of the validated prefix, fresh decoder without BOM handling on the '
+         'rest; grow loop around decode_to_string with reserve on OutputFull; single raw call with unreachable!() for the without-replacement form), for '
+         'all 13 variant decoders = all 40 encodings, every input (no length bound), every stop policy of every inner call (= every capacity) and every '
+         'number of OutputFull rounds: decode_without_bom_handling_eq_stream (text and had_errors = replaced text / error flag of the reference semantics '
+         'ref F F.init bytes 0, which by C02 history_eq_ref and C09 replLoop_sound is what ANY streaming history yields); valid_prefix (prefix identity '
+         'for every borrowable variant: ASCII / ISO-2022-JP-safe run via the per-family pass lemmas, UTF-8 via a new lemma that every Table 3-7 sequence '
+         "drives the Utf8Decoder model from its initial state back to it emitting the sequence's scalar); without_replacement_none_iff (None iff the "
+         'stream has a malformed sequence - for UTF-8: iff not valid UTF-8, utf8_hadErrors_iff - and Some = the streaming text, which then has no '
+         'replacement); decode_eq_sniff / decode_with_bom_removal_eq / forBom_spec / withoutOwnBom_spec (a UTF-8 / UTF-16LE / UTF-16BE BOM selects that '
+         "encoding whatever self is, only the encoding's own BOM is removed by the removal form, the rest is decoded as by the streaming decoder of the "
+         'encoding used, encoding-used as documented); borrow_iff / without_replacement_borrow_iff / decode_borrow_iff (Borrowed iff: UTF-8 and the rest '
+         'valid UTF-8; ISO-2022-JP and every byte ASCII other than 0E/0F/1B; any other encoding except UTF-16BE/LE/replacement - incl. x-user-defined and '
+         'single-byte - and every byte ASCII; never for UTF-16BE/LE/replacement, not even for empty input; a borrowed result is the input itself with '
+         'had_errors = false); sniff_single_call / remove_utf8_single_call / remove_utf16_single_call / remove_other_single_call (the streaming BOM life '
+         'cycle fed the whole input in one last call selects the same decoder and the same rest as for_bom / starts_with); '
+         'decode_without_bom_handling_terminates / _total (the model returns under the never-stop policy; rank bound for all 13 families); '
+         'no_unreachable_partial; variant_identifies re-checks the variant tests against the regenerated Encoding list. Kernel-checked, axioms '
+         'propext/Classical.choice/Quot.sound only. Model tied to the code by ~3.3*10^5 (quick) operation lines per run over all 40 encodings and lengths '
+         '0..4096 with the first offending unit at every position mod 64; the same inputs (4.9*10^5 oracle evaluations incl. encode) are compared with the '
+         'streaming API in one call and in 7-byte chunks, with Cow variant and pointer identity.'}
